@@ -177,6 +177,26 @@ def case_basis_matrix(ctx):
     ctx.require("basis_matrix:rows-orthogonal", ctx.is_zero(R.dot(Bm[0], Bm[1])))
 
 
+def case_basis_matrix_collection(ctx):
+    """the same statement for a LineCollection of two free lines (the norms are taken per element)"""
+    from geometer import LineCollection
+    ls = [_line(ctx, "l"), _line(ctx, "m")]
+    C = LineCollection(np.stack([np.asarray(x) for x in ls]))
+    B = C.basis_matrix
+    ctx.require("basis_matrix[collection]:shape", tuple(B.shape) == (2, 2, 3))
+    if tuple(B.shape) != (2, 2, 3):
+        return
+    for k in range(2):
+        le, Bm = E(ls[k]), R.mat(B[k])
+        for i in range(2):
+            ctx.require(f"basis_matrix[collection]:pos{k}:row{i}-on-line", ctx.is_zero(R.dot(le, Bm[i])))
+            ctx.require(f"basis_matrix[collection]:pos{k}:row{i}-unit", ctx.eq(R.dot(Bm[i], Bm[i]), 1))
+        ctx.require(f"basis_matrix[collection]:pos{k}:rows-orthogonal", ctx.is_zero(R.dot(Bm[0], Bm[1])))
+    G = C.general_point
+    for k in range(2):
+        ctx.require(f"general_point[collection]:pos{k}:not-on-line", ctx.neg(ctx.is_zero(R.dot(E(ls[k]), E(G.array[k])))))
+
+
 def case_plane_constructions(ctx):
     from geometer import Point, Plane
     e = _nz(ctx, vec(ctx, "e", 4))
@@ -260,6 +280,7 @@ def cases(tier, seed):
     add("cocircular_2d", case_cocircular, tiers=Q, max_paths=2000)
     add("base_point_direction_2d", case_base_point_direction, tiers=Q, max_paths=2000)
     add("basis_matrix_2d", case_basis_matrix, tiers=Q, max_paths=2000)
+    add("basis_matrix_2d_collection", case_basis_matrix_collection, tiers=Q, max_paths=2000)
     add("plane_constructions_3d", case_plane_constructions, tiers=Q, max_paths=2000)
     add("collinear4_collections", case_collinear4_collections, tiers=Q, max_paths=2000)
     add("perpendicular_3d_lattice", case_perpendicular_3d_lattice, tiers=Q, max_paths=2000)
